@@ -176,7 +176,7 @@ pub fn run(args: &[String]) -> i32 {
             errors.push(format!("history {h}: {e}"));
             continue;
         }
-        s.wait_out("COUNTS", 2000);
+        s.wait_out("COUNTS", 20000);
         let out = s.stdout();
         let Some(line) = out.lines().find(|l| l.starts_with("COUNTS ")) else {
             errors.push(format!("history {h}: no COUNTS line in {out:?}"));
@@ -361,7 +361,7 @@ pub fn run_acct(args: &[String]) -> i32 {
             errors.push(format!("history {h}: {e}"));
             continue;
         }
-        s.wait_out("COUNTS", 2000);
+        s.wait_out("COUNTS", 20000);
         let out = s.stdout();
         let Some(line) = out.lines().find(|l| l.starts_with("COUNTS ")) else {
             errors.push(format!("history {h}: no COUNTS line"));
